@@ -902,12 +902,12 @@ theorem assignment_conversion (t : VarTy) (x y : Val) :
     assignConv_integer_overflow x, fun _ => rfl, fun _ => rfl, (assignConv_mismatch t x).1,
     (assignConv_mismatch t x).2, assignConv_string_too_long⟩
 
-/-- `Var.store` IS that conversion: after the pool test (OUT OF MEMORY) the type of the name — its
-    suffix, else the DEFtype of its first letter — selects the conversion, and the converted value is
-    written under the name -/
+/-- `Var.store` IS that conversion: after the pool test (OUT OF MEMORY for a full pool and a name it does
+    not hold yet, D23) the type of the name — its suffix, else the DEFtype of its first letter — selects the
+    conversion, and the converted value is written under the name -/
 theorem store_is_conversion (v : Var) (n : Str) (x : Val) (t : VarTy) (ht : v.tyOf n = .ok (some t)) :
     v.store n x =
-      if v.vars.length > 65535 then err Code.outOfMemory
+      if v.vars.length > 65535 ∧ AL.contains n v.vars = false then err Code.outOfMemory
       else match assignConv t x with
         | .ok y => .ok (v.updateVal n y)
         | .error e => .error e :=
